@@ -30,6 +30,9 @@ class Holder:
             while v.kind in ("variant", "field") and v.kids:
                 v = peel(v.kids[0])
             v = common._outcome_root(v)
+            if v.kind == "mut" and len(v.kids) == 2 and v.kids[1].kind == "call":
+                # out-parameter form: `let mut v = Vec::new(); self.select(.., &mut v)?; self.hs_disclosures = v`
+                v = v.kids[1]
             if v.kind == "call" and v.d["term"].get("resolved_local"):
                 self.sel_entry = fx.view(v.d["term"]["resolved"])
                 self.sel_call = v
@@ -37,12 +40,22 @@ class Holder:
             ctx.missing(rule, "selection", "create_presentation does not assign hs_disclosures from a crate-local selection function")
             return
         self.sel_fns = [f for f in fx.subjects(sorted(cg.reachable_from(self.g, [self.sel_entry.name]))) if f.name.startswith("holder::") and f.kind != "closure"
-                        and (f.raw.get("ret_ty") or "").startswith("std::result::Result<" + VEC_S)]
+                        and ((f.raw.get("ret_ty") or "").startswith("std::result::Result<" + VEC_S) or self.out_param(f) is not None)]
         self.sel_all = [f for f in fx.subjects(sorted(cg.reachable_from(self.g, [self.sel_entry.name]))) if f.name.startswith("holder::")]
         self.ok = True
 
+    def out_param(self, fn):
+        """index of a `&mut Vec<String>` parameter through which the selection is handed back (the function then returns Result<()>)"""
+        if not (fn.raw.get("ret_ty") or "").startswith("std::result::Result<()"):
+            return None
+        ps = [i for i in range(1, fn.arg_count + 1) if (fn.local_ty(i) or "") == "&mut " + VEC_S]
+        return ps[0] if len(ps) == 1 else None
+
     def result_vec(self, fn):
-        """local of the Vec<String> that the selection function returns in Ok(..)"""
+        """local of the Vec<String> that the selection function returns in Ok(..) (or its `&mut Vec<String>` out-parameter)"""
+        op_ = self.out_param(fn)
+        if op_ is not None:
+            return op_
         fv = vals(fn)
         for e in cfg.exit_sites(fn):
             if e["kind"] == "Ok" and "rv" in e:
